@@ -7,14 +7,16 @@
 
 // fresh allocations are poisoned so that "unspecified" bytes are recognisable and a
 // missing terminator cannot be hidden by a lucky zero
+static long liveBlocks = 0;   // `new char[]` blocks of Buffer not yet `delete[]`d (compared with the model's ledger)
 void* operator new[](usize size)
 {
   void* p = malloc(size ? size : 1);
   memset(p, 0xAA, size);
+  ++liveBlocks;
   return p;
 }
-void operator delete[](void* p) { free(p); }
-void* operator new(usize size) { return operator new[](size); }
+void operator delete[](void* p) { if(p) --liveBlocks; free(p); }
+void* operator new(usize size) { return malloc(size ? size : 1); }
 void operator delete(void* p) { free(p); }
 
 static const int NV = 2;
@@ -176,6 +178,12 @@ int main()
     {
       bool e = *var[v] == *var[w], n = *var[v] != *var[w];
       printf(e == !n ? "eq %d" : "eq-inconsistent %d", (int)e);
+      hxEndLine();
+      continue;
+    }
+    else if(hxIs(l, "heap", 0))
+    {
+      printf("heap %ld", liveBlocks);
       hxEndLine();
       continue;
     }
